@@ -142,7 +142,7 @@ example : (run (stopAt 5) ex).out.map (·.id) = [1,2,3,4,5] := by decide
 set_option maxRecDepth 100000 in
 /-- the code this property's model mirrors still has the shape the model was written against (control-flow
     skeletons regenerated from /repo on every run, Model/SkeletonsMore) -/
-theorem facts_model_skeleton : Generated.F12.walk = SkeletonsMore.walk := by decide +kernel
+theorem facts_model_skeleton : Generated.F12.walk = SkeletonsMore.walk := by rfl
 
 /-! ### translated code: walk.go itself, regenerated on every run (Generated/T2.lean) -/
 
